@@ -36,10 +36,23 @@ func forgedBody(rx *ref.Rx) []byte {
 
 func forgeAns(name string, authentic bool, f func(t *env.Transport, rx *ref.Rx, s *ref.Session) []byte) histAnswer {
 	cls := clsUndecodable
+	// the forger answers the request it sees; if the BMC could not make sense
+	// of this transmission (a retransmission the library got wrong), it forges
+	// an answer to the last request that was understood
+	var last *ref.Rx
 	return histAnswer{Answer: env.Raw(name, func(t *env.Transport, rx *ref.Rx) []byte {
 		if rx == nil || rx.Sess == nil || rx.Msg == nil {
+			for i := len(t.BMC.Log) - 1; i >= 0 && last == nil; i-- {
+				if l := t.BMC.Log[i]; l.Sess != nil && l.Msg != nil {
+					last = l
+				}
+			}
+			rx = last
+		}
+		if rx == nil {
 			return nil
 		}
+		last = nil
 		return f(t, rx, rx.Sess)
 	}), Class: cls, Own: authentic}
 }
@@ -107,6 +120,20 @@ func forgeAlphabet(cfg histCfg, w *World) []histAnswer {
 			return wrap(s, true, false, s.HS.SIDM, forgedMsg(rx), nil)
 		}),
 	)
+	// forgeries that need no key at all: authenticated flag set, payload in the
+	// clear, a well-formed trailer whose AuthCode is empty / zeros / ones of
+	// each algorithm's length
+	for _, n := range []int{0, 12, 16, 20} {
+		for _, fill := range []byte{0x00, 0xFF} {
+			if n == 0 && fill != 0 {
+				continue
+			}
+			n, fill := n, fill
+			a = append(a, forgeAns(fmt.Sprintf("forged/keyless-plaintext-flag-set-authcode-%d-bytes-of-%02x", n, fill), false, func(t *env.Transport, rx *ref.Rx, s *ref.Session) []byte {
+				return wrap(s, false, true, s.HS.SIDM, forgedMsg(rx), func([]byte) []byte { return pattern(n, fill, 0) })
+			}))
+		}
+	}
 	// valid signature, invalid confidentiality pad (by a party that has K1 and K2)
 	badPad := func(name string, mk func(msg []byte) []byte) {
 		a = append(a, forgeAns("forged/bad-pad/"+name, false, func(t *env.Transport, rx *ref.Rx, s *ref.Session) []byte {
@@ -328,13 +355,14 @@ func runC04(r *rep.R) {
 			if t == opGetDeviceID {
 				histExploreWith(r, "C04", cfg2, 1, &idx, c04Judge)
 			}
+			// two deviations: forgery after forgery, forgery after a temporary
+			// code etc. (a forgery that is not the first reply of the command meets
+			// the layers as the retry path left them), catalogue only (no flips)
+			cfg3 := cfg
+			cfg3.FlipLen = 0
+			cfg3.Horizon = 3
+			histExploreWith(r, "C04", cfg3, 2, &idx, c04Judge)
 			if thorough(r) {
-				// two deviations: forgery after forgery, forgery after a temporary
-				// code etc., catalogue only (no flips)
-				cfg3 := cfg
-				cfg3.FlipLen = 0
-				cfg3.Horizon = 3
-				histExploreWith(r, "C04", cfg3, 2, &idx, c04Judge)
 				if t == opGetDeviceID || t == opPowerReading {
 					// every bit flip / truncation followed by every second deviation
 					cfg4 := cfg
